@@ -82,12 +82,21 @@ def cases(tier, seed):
                 for nested in (True, False):
                     for rorder in ((2, iorder, 0) if nested else (2, iorder)):
                         gen.append(dict(kind='space', periodic=periodic, nf=nf, nc=nc, iorder=iorder, rorder=rorder, nested=nested, dim=1, _cost=nf))
+    # grids that are not nested at all (Dirichlet, nf = 2 nc): only the general construction (equidist_nested=False) applies;
+    # every pairing of interpolation and restriction order
+    keep = []
+    for nc in (4, 5, 8, 12, 16, 21):
+        for iorder in (2, 4, 6):
+            for rorder in (2, 4, 6):
+                keep.append(dict(kind='space', periodic=False, nf=2 * nc, nc=nc, iorder=iorder, rorder=rorder, nested=False, dim=1, _cost=2 * nc))
     if tier == 'quick':
         gen = [gen[i] for i in rng.choice(len(gen), 40, replace=False)]
+        keep = [c for c in keep if c['nc'] in (5, 8)]
     sp += gen
     if tier == 'quick':
         sp = [sp[i] for i in rng.choice(len(sp), 120, replace=False)]
         nd = [nd[i] for i in rng.choice(len(nd), 10, replace=False)]
+    sp += keep
     cs += sp + nd
     for i in range(24 if tier == 'quick' else 1500):
         dim = int(rng.choice([2, 2, 3]))
